@@ -98,7 +98,7 @@ func renderScenario(kind, format string, defs, reqs []string) string {
 	if format == "hcl" {
 		for _, d := range defs {
 			if kind == "http" {
-				fmt.Fprintf(&b, "request %s {\n  method = \"GET\"\n  uri = \"/x\"\n}\n", quote(d))
+				fmt.Fprintf(&b, "request %s {\n  method = \"GET\"\n  uri = \"/x\"\n  headers = {}\n}\n", quote(d))
 			} else {
 				fmt.Fprintf(&b, "call %s {\n  call = \"pkg.Svc.M\"\n  payload = \"{}\"\n}\n", quote(d))
 			}
@@ -212,6 +212,35 @@ func runScnPayload(kind, format string, payload []byte, detail bool) (obs string
 	}
 	ctx, cancel := context.WithCancel(context.Background())
 	defer cancel()
+	// consumer: the first scenario is kept, the rest is drained so that Run never blocks on a full sink
+	// (the sink of the scenario provider is not closed by Run: the consumer is abandoned when Run is over)
+	first := make(chan string, 1)
+	stop := make(chan struct{})
+	defer close(stop)
+	go func() {
+		defer func() {
+			if r := recover(); r != nil {
+				select {
+				case first <- "end=panic":
+				default:
+				}
+			}
+		}()
+		for n := 0; n < 1000000; n++ {
+			a, ok := c.p.Acquire()
+			if !ok {
+				return
+			}
+			if n == 0 {
+				first <- "steps=" + renderSteps(a) + " end=ok"
+			}
+			select {
+			case <-stop:
+				return
+			default:
+			}
+		}
+	}()
 	runDone := make(chan string, 1)
 	go func() {
 		defer func() {
@@ -228,30 +257,13 @@ func runScnPayload(kind, format string, payload []byte, detail bool) (obs string
 		return "end=hang"
 	}
 	if end != "ok" || !detail {
-		if end == "ok" {
-			return "end=ok"
-		}
 		return "end=" + end
 	}
-	acq := make(chan string, 1)
-	go func() {
-		defer func() {
-			if r := recover(); r != nil {
-				acq <- "end=panic"
-			}
-		}()
-		a, ok := c.p.Acquire()
-		if !ok {
-			acq <- "end=closed"
-			return
-		}
-		acq <- "steps=" + renderSteps(a) + " end=ok"
-	}()
 	select {
-	case o := <-acq:
+	case o := <-first:
 		return o
-	case <-time.After(10 * time.Second):
-		return "end=hang"
+	case <-time.After(5 * time.Second):
+		return "end=noammo"
 	}
 }
 
